@@ -108,20 +108,14 @@ impl super::Selector<Interest, Event, Events> for Poller {
 
     #[allow(clippy::cast_possible_truncation)]
     fn do_register(&self, fd: c_int, token: u64, interests: Interest) -> std::io::Result<()> {
-        self.registry().register(
-            &mut SourceFd(&fd),
-            Self::mio_token(token),
-            interests,
-        )
+        self.registry()
+            .register(&mut SourceFd(&fd), Self::mio_token(token), interests)
     }
 
     #[allow(clippy::cast_possible_truncation)]
     fn do_reregister(&self, fd: c_int, token: u64, interests: Interest) -> std::io::Result<()> {
-        self.registry().reregister(
-            &mut SourceFd(&fd),
-            Self::mio_token(token),
-            interests,
-        )
+        self.registry()
+            .reregister(&mut SourceFd(&fd), Self::mio_token(token), interests)
     }
 
     fn do_deregister(&self, fd: c_int, _: u64) -> std::io::Result<()> {
